@@ -10,34 +10,51 @@ namespace GuppyVerif.C21
 
 /-- the meaning of a selection: (implementing type, operator) with operands in source order, or
     `none` when the selected dunder is not a spelling of the operator at all -/
-def Sel.meaning (T : Tables) (op : Op) (s : Sel) : Option (NTy × Op) :=
-  match T.ops.lookup op with
-  | none => none
-  | some (lop, rop) =>
-    if (s.dunder = lop ∧ s.swapped = false) ∨ (s.dunder = rop ∧ s.swapped = true) then some (s.ty, op) else none
+def Sel.meaning (T : Tables) (op : Op) : Sel → Option (NTy × Op)
+  | ⟨ty, dunder, swapped⟩ =>
+    match T.ops.lookup op with
+    | none => none
+    | some (lop, rop) =>
+      if (dunder = lop ∧ swapped = false) ∨ (dunder = rop ∧ swapped = true) then some (ty, op) else none
 
 def allTys : List NTy := [.bool, .nat, .int, .float]
 /-- Python constants that can meet a traced value in an operator: `bool`, `int`, `float` literals -/
 def constTys : List NTy := [.bool, .int, .float]
 
-/-- the operand shapes of the property: `x op y`, `x op c`, `c op x` -/
-def shapes : List (Operand × Operand) :=
-  (allTys.flatMap fun a => allTys.map fun b => (Operand.traced a, Operand.traced b)) ++
-  (allTys.flatMap fun a => constTys.map fun b => (Operand.traced a, Operand.const b)) ++
-  (constTys.flatMap fun a => allTys.map fun b => (Operand.const a, Operand.traced b))
+/-- the operand shapes of the property: `x op y`, `x op c`, `c op x` (every traced type with every
+    traced / constant type).  Written out as a literal: the kernel evaluates call-by-name, and elements of
+    a computed list would be re-computed at each use. -/
+def shapes : List (Operand × Operand) := [
+  (.traced .bool, .traced .bool), (.traced .bool, .traced .nat), (.traced .bool, .traced .int), (.traced
+  .bool, .traced .float), (.traced .nat, .traced .bool), (.traced .nat, .traced .nat), (.traced .nat, .traced
+  .int), (.traced .nat, .traced .float), (.traced .int, .traced .bool), (.traced .int, .traced .nat), (.traced
+  .int, .traced .int), (.traced .int, .traced .float), (.traced .float, .traced .bool), (.traced .float,
+  .traced .nat), (.traced .float, .traced .int), (.traced .float, .traced .float), (.traced .bool, .const
+  .bool), (.traced .bool, .const .int), (.traced .bool, .const .float), (.traced .nat, .const .bool), (.traced
+  .nat, .const .int), (.traced .nat, .const .float), (.traced .int, .const .bool), (.traced .int, .const
+  .int), (.traced .int, .const .float), (.traced .float, .const .bool), (.traced .float, .const .int),
+  (.traced .float, .const .float), (.const .bool, .traced .bool), (.const .bool, .traced .nat), (.const .bool,
+  .traced .int), (.const .bool, .traced .float), (.const .int, .traced .bool), (.const .int, .traced .nat),
+  (.const .int, .traced .int), (.const .int, .traced .float), (.const .float, .traced .bool), (.const .float,
+  .traced .nat), (.const .float, .traced .int), (.const .float, .traced .float)]
 
-def allOps : List Op := checkerOps.map (·.1)
-def allUOps : List UOp := checkerUOps.map (·.1)
+def allOps : List Op := [.Add, .BitAnd, .BitOr, .BitXor, .Div, .Eq, .FloorDiv, .Gt, .GtE, .LShift, .Lt, .LtE,
+  .MatMult, .Mod, .Mult, .NotEq, .Pow, .RShift, .Sub]
+def allUOps : List UOp := [.Invert, .UAdd, .USub]
 
 /-- binary-operator methods of the mixin and the operator-protocol name they must serve -/
 def reflectedOf (T : Tables) (d : Dunder) : Option Dunder :=
   (T.ops.find? (fun r => r.2.1 = d)).map (·.2.2)
 
 /-- **Agreement** of a comptime outcome with a regular outcome for operator `op`: both fail, or both
-    succeed with selections that mean the same (implementing type, operator, source operand order). -/
+    succeed with selections that mean the same (implementing type, operator, source operand order).
+    (The selections are destructured before use so that kernel evaluation computes each only once.) -/
 def Agree (T : Tables) (op : Op) (c : Option (Option Sel)) (r : Option Sel) : Bool :=
   match c, r with
-  | some (some c), some r => decide (c.meaning T op = r.meaning T op) && (r.meaning T op).isSome
+  | some (some ⟨ct, cd, cs⟩), some ⟨rt, rd, rs⟩ =>
+    match Sel.meaning T op ⟨rt, rd, rs⟩ with
+    | some m => decide (Sel.meaning T op ⟨ct, cd, cs⟩ = some m)
+    | none => false
   | some none, none => true
   | _, _ => false
 
@@ -45,7 +62,8 @@ def Agree (T : Tables) (op : Op) (c : Option (Option Sel)) (r : Option Sel) : Bo
     (only possible when both operands have that type) -/
 def AgreeRefl (a b : NTy) (c : Option (Option Sel)) (r : Option Sel) : Bool :=
   match c, r with
-  | some (some c), some r => decide (c = r) || (decide (c.ty = r.ty) && decide (a = b))
+  | some (some ⟨ct, cd, cs⟩), some ⟨rt, rd, rs⟩ =>
+    (decide (ct = rt) && decide (cd = rd) && decide (cs = rs)) || (decide (ct = rt) && decide (a = b))
   | some none, none => true
   | _, _ => false
 
